@@ -151,6 +151,21 @@ def f14_f16(repo, res):
     # comprehensions only count when their value reaches the returned list
     passes = [x for x in passes if isinstance(x, ast.For) or any(
         isinstance(a_, ast.Assign) and any(x is g for c in ast.walk(a_.value) if isinstance(c, (ast.ListComp, ast.GeneratorExp)) for g in c.generators) for a_ in ast.walk(cf))]
+    # ... and every loop that appends to the returned list is a pass, whatever it iterates (a list of entries set aside in the first loop
+    # and converted in a second one moves those entries behind the others)
+    parents_ = {}
+    for x in ast.walk(cf):
+        for ch in ast.iter_child_nodes(x):
+            parents_[id(ch)] = x
+    for c in ast.walk(cf):
+        if isinstance(c, ast.Call) and getattr(c.func, "attr", "") in ("append", "extend", "insert") and isinstance(c.func.value, ast.Name) and c.func.value.id in names:
+            q_, outer = parents_.get(id(c)), None
+            while q_ is not None:
+                if isinstance(q_, ast.For):
+                    outer = q_
+                q_ = parents_.get(id(q_))
+            if outer is not None and not any(outer is x for x in passes):
+                passes.append(outer)
     ok = len(passes) <= 1
     res.ob("F16:observers gathered in one pass", ok, {"rule": "F16", "passes_over_the_input": len(passes)})
     if not ok:
@@ -159,12 +174,104 @@ def f14_f16(repo, res):
                         "axis of the result no longer follows the order of a mixed [position, Sensor, Collection] list", getattr(passes[1], "lineno", cf.lineno)))
 
 
+def f18(repo, res):
+    """F18 regrouping keeps positions: where getBH_level2 distributes the entries of a sequence into a dictionary of lists under a computed key
+    (`groups.setdefault(key, []).append(x)`), the groups are later taken in key order, not in the order of the sequence; the result keeps
+    its row order only if every group also records the positions of its members (the source grouping appends the loop index to `order`
+    and writes back by it).  A grouping that records no positions permutes the rows (sensors A, B, C with pixel counts 4, 6, 4 come out A, C, B)."""
+    fn = repo.func("magpylib._src.fields.field_wrap_BH", "getBH_level2")
+    n = 0
+    for loop in ast.walk(fn):
+        if not isinstance(loop, ast.For):
+            continue
+        idx_names = set()
+        if isinstance(loop.iter, ast.Call) and getattr(loop.iter.func, "id", "") == "enumerate" and isinstance(loop.target, ast.Tuple) and loop.target.elts \
+                and isinstance(loop.target.elts[0], ast.Name):
+            idx_names.add(loop.target.elts[0].id)
+        groupings = []
+        # locals of the loop that stand for one group record: `rec = D.setdefault(k, ..)` / `rec = D[k]` / `a, b = D.setdefault(k, ([], []))`
+        alias = {}
+        for a_ in ast.walk(loop):
+            if isinstance(a_, ast.Assign) and len(a_.targets) == 1:
+                v_ = a_.value
+                d_ = None
+                if isinstance(v_, ast.Call) and isinstance(v_.func, ast.Attribute) and v_.func.attr == "setdefault" and isinstance(v_.func.value, ast.Name) and v_.args \
+                        and not isinstance(v_.args[0], ast.Constant):
+                    d_ = v_.func.value.id
+                elif isinstance(v_, ast.Subscript) and isinstance(v_.value, ast.Name) and not isinstance(v_.slice, (ast.Constant, ast.Slice)):
+                    d_ = v_.value.id
+                if d_:
+                    for t_ in ast.walk(a_.targets[0]):
+                        if isinstance(t_, ast.Name):
+                            alias[t_.id] = d_
+        for c in ast.walk(loop):
+            if isinstance(c, ast.Call) and isinstance(c.func, ast.Attribute) and c.func.attr in ("append", "extend"):
+                recv = c.func.value
+                root_ = recv
+                while isinstance(root_, (ast.Attribute, ast.Subscript)):
+                    root_ = root_.value
+                if isinstance(root_, ast.Name) and root_.id in alias:
+                    groupings.append((alias[root_.id], c))
+                    continue
+                # D.setdefault(k, []).append(x)  /  D[k].append(x)  /  D[k]["name"].append(x)
+                base = recv
+                while isinstance(base, ast.Subscript):
+                    base = base.value
+                if isinstance(base, ast.Call) and isinstance(base.func, ast.Attribute) and base.func.attr == "setdefault" and isinstance(base.func.value, ast.Name):
+                    key, dname = base.args[0] if base.args else None, base.func.value.id
+                elif isinstance(recv, ast.Subscript) and isinstance(base, ast.Name) and base is not recv:
+                    inner = recv
+                    while isinstance(inner.value, ast.Subscript):
+                        inner = inner.value
+                    key, dname = inner.slice, base.id
+                else:
+                    continue
+                if key is None or isinstance(key, ast.Constant):
+                    continue
+                groupings.append((dname, c))
+        for dname in sorted({d for d, _c in groupings}):
+            n += 1
+            calls = [c for d, c in groupings if d == dname]
+            keeps = any(any(isinstance(x, ast.Name) and x.id in idx_names for a in c.args for x in ast.walk(a)) for c in calls)
+            res.ob(f"F18:{dname}", keeps, {"rule": "F18", "grouping": dname, "appends": [norm(c)[:60] for c in calls], "loop_index_recorded": keeps})
+            if not keeps:
+                res.add(Finding("F18", "magpylib/_src/fields/field_wrap_BH.py", "getBH_level2", calls[0], f"`{dname}` groups the entries of a sequence under a computed key without "
+                                "recording their positions: the groups are consumed in key order, so the rows of the result no longer follow the order of the inputs", calls[0].lineno))
+    if n == 0:
+        res.undecided.append("F18: no dictionary-of-lists grouping recognised in getBH_level2 (the source grouping may live in a helper): nothing judged")
+
+
+def f17(repo, res):
+    """F17 the pixel grid is flattened and restored in one index order: the output is reshaped back to the pixel shape in C order
+    (`B.reshape((.., *pix_shape, 3))`), so every flattening of pixel / observer arrays in the level-2 plumbing must be C order as well.
+    An `order=` other than "C" (`"A"`, `"K"`, `"F"`) follows the memory layout of the user's array: a Fortran-ordered pixel grid
+    (np.mgrid[..].T) then has its pixels permuted in the result."""
+    m = repo.mod("magpylib._src.fields.field_wrap_BH")
+    n = 0
+    for fname, fn in m.funcs.items():
+        for c in ast.walk(fn):
+            if not (isinstance(c, ast.Call) and (getattr(c.func, "attr", "") in ("reshape", "ravel", "flatten") or getattr(c.func, "id", "") in ("reshape", "ravel"))):
+                continue
+            n += 1
+            order = next((k.value for k in c.keywords if k.arg == "order"), None)
+            if order is None and getattr(c.func, "attr", "") in ("ravel", "flatten") and c.args and isinstance(c.args[0], ast.Constant) and isinstance(c.args[0].value, str):
+                order = c.args[0]
+            ok = order is None or (isinstance(order, ast.Constant) and order.value == "C")
+            res.ob(f"F17:{fname}:{norm(c)[:60]}", ok, {"rule": "F17", "function": fname, "call": norm(c)[:80]} if not ok or n % 7 == 0 else None, nontrivial=not ok)
+            if not ok:
+                res.add(Finding("F17", m.rel, fname, c, "arrays are flattened in a memory-layout dependent order but restored in C order: for a Fortran-ordered pixel / "
+                                "observer array the entries of the result belong to other pixels", c.lineno))
+    res.require(n >= 8, f"F17: only {n} reshape / ravel / flatten calls found in the level-2 plumbing")
+
+
 def run(repo, res, tier):
-    res.rules = ["F3 pixel placement / back-rotation typing", "F4 handedness flips component 0 only", "F5 path predicates quantify over the path", "F6 flip before aggregation", "F7 flip reached for every sensor", "F8 aggregation unconditional", "F9 constant path index only under a staticness guard", "F11 aggregator lookup by the given name", "F12 handedness domain", "F13 observer collections flattened in sensors_all order", "F14 per-sensor bookkeeping by index", "F15 aggregator applied once", "F16 observers gathered in one pass"]
+    res.rules = ["F3 pixel placement / back-rotation typing", "F4 handedness flips component 0 only", "F5 path predicates quantify over the path", "F6 flip before aggregation", "F7 flip reached for every sensor", "F8 aggregation unconditional", "F9 constant path index only under a staticness guard", "F11 aggregator lookup by the given name", "F12 handedness domain", "F13 observer collections flattened in sensors_all order", "F14 per-sensor bookkeeping by index", "F15 aggregator applied once", "F16 observers gathered in one pass", "F17 flatten / restore in one index order", "F18 regrouping records positions"]
     extra = frame_rules.c04(repo, res)
     f11(repo, res)
     f12(repo, res)
     f14_f16(repo, res)
+    f17(repo, res)
+    f18(repo, res)
     from props import c11
     c11.typed_view_flatten(repo, res, "F13")      # observer collections are flattened in sensors_all order (rows of the result)
     res.assumptions += ["declared types: sens.pixel : Vec[sens], sens._orientation : Rot[sens->G], sens._position : Pt[G]; getBH_level1(...) : Vec[G]"]
